@@ -900,7 +900,8 @@ class _MIPS32_ELF(ABI):
         return self.get_register("sp")
 
     def temporary_label_prefix(self) -> str:
-        return ".L"
+        # LLVM's private label prefix for the MIPS O32 ABI is "$", not ".L".
+        return "$"
 
     def default_dwarf_eh_return_column(self) -> int:
         return 32
